@@ -213,6 +213,15 @@ def splitLits : List Expr → List Expr × List LitVal
     | some v => (vs, v :: ls)
     | none => (e :: vs, ls)
 
+/-- `_simplify_function_max/min` on a list of values: fold the number literals (when there are at least two) -/
+def foldMinMax (call : Expr) (fn : String) (isMax : Bool) (values : List Expr) : M Expr :=
+  let (vars, lits) := splitLits values
+  if lits.length < 2 then pure call
+  else do
+    let m ← (if isMax then maxVal lits else minVal lits)
+    let n ← litNumber m
+    if vars.isEmpty then pure n else mkCall fn (ExprList.ofList (vars ++ [n]))
+
 def opaqueFuns : List String := ["sqrt", "sin", "cos", "tan", "asin", "acos", "atan", "deg", "rad"]
 
 /-- the operands of `z` when it is an application of `op` -/
@@ -436,13 +445,7 @@ def simpCall : Nat → Expr → String → ExprList → M Expr
       | _ => pure call
     else if fn == "max" || fn == "min" then
       let isMax := fn == "max"
-      let fold (values : List Expr) : M Expr :=
-        let (vars, lits) := splitLits values
-        if lits.length < 2 then pure call
-        else do
-          let m ← (if isMax then maxVal lits else minVal lits)
-          let n ← litNumber m
-          if vars.isEmpty then pure n else mkCall fn (ExprList.ofList (vars ++ [n]))
+      let fold (values : List Expr) : M Expr := foldMinMax call fn isMax values
       match args with
       | .cons a0 .nil => do
           let a ← simp f a0
